@@ -25,10 +25,10 @@ import warnings
 import common
 from common import Check, main_wrapper, InfraError
 
-KEY_REDUCED = "reduced-negative-shift-scale-ge-2^15"
 KEY_POOL16 = "pool16-odd-window-ge-32993-extreme-accumulator"
-KEY_ADDSUB_F32 = "addsub-scales-float32-arithmetic-numpy2"
-KEY_POOLREG_F32 = "avgpool-ofm-scale-rounded-to-float32-numpy2"
+KEY_ADV_MIXCMP = "advanced-addsub-mixed-pyfloat-float32-compared-in-float32"
+# Repaired in /repo and therefore no longer keyed (a `fixed:` entry suppresses nothing): the negative reduced
+# shift (de981c1), float32 arithmetic of the add/sub helpers (8198013), float32-rounded average-pool OFM_SCALE (5f5d642).
 
 TWO52 = 1 << 52
 TWO53 = 1 << 53
@@ -405,8 +405,8 @@ def main():
     if tot["neg"]:
         rp = replay_scale(*neg_sample)
         ck.violation(f"reduced_quantise_scale returns a non-zero multiplier with a negative shift for 2^15 <= scale < 2^31 "
-                     f"(guard tests shift instead of reduced_shift), e.g. {rp['arg_hex']} -> {rp['implementation']}; {tot['neg']} inputs",
-                     rp, found_input=True, key=KEY_REDUCED)
+                     f"(regression of /repo de981c1: the guard must test reduced_shift), e.g. {rp['arg_hex']} -> {rp['implementation']}; {tot['neg']} inputs",
+                     rp, found_input=True)
     ck.sample({"stage": "A", "calls": tot["n"], "model_mismatch": tot["mm"], "spec_rejections": tot["sf"], "known_negative_shift": tot["neg"]})
 
     # A5: the malformed / special stream: zero, negative, inf, nan, huge ints — model correspondence one by one
@@ -623,14 +623,14 @@ def main():
     distinct += len({(c[0], c[1], tuple(c[2]), c[3]) for c in el_cases if c[4]})
     el_mm = [i for i, (m_, r_) in enumerate(zip(outs, reals)) if m_ != r_]
     ck.count("C_model_mismatch", len(el_mm))
-    f32_known, el_bad = [], []
+    el_bad, mix_known = [], []
     for ci, v in zip(spec_idx, sp):
         ck.count("C_spec_" + v.replace(":", "_"))
         if v == "1":
             continue
         fn, ks, vals, extra, _ = el_cases[ci]
-        if fn in ("add", "adv") and v.endswith(":f32") and v.split(":")[1] in ("ratio", "reference") and ci not in el_mm:
-            f32_known.append((ci, v))
+        if fn == "adv" and v.endswith(":mixcmp") and ci not in el_mm:
+            mix_known.append((ci, v))
         else:
             el_bad.append((ci, v))
 
@@ -645,14 +645,14 @@ def main():
     for ci, v in el_bad[:3]:
         rp = el_replay(ci, v)
         ck.violation(f"{rp['call']} = {rp['implementation']}: Lean Spec verdict {v}", rp, found_input=True)
-    if f32_known:
-        ci, v = f32_known[0]
+    if mix_known:
+        ci, v = mix_known[0]
         rp = el_replay(ci, v)
-        ck.violation(f"add/sub scale helpers compute in float32 when the scales arrive as np.float32 (NumPy >= 2 promotion): the pairs "
-                     f"carry ~2^-24 instead of 2^-31 relative error and differ from the double (reference) derivation, e.g. {rp['call']} = "
-                     f"{rp['implementation']} (verdict {v}); {len(f32_known)} of {len(spec_idx)} realistic triples", rp,
-                     found_input=True, key=KEY_ADDSUB_F32)
-    ck.count("C_known_f32_arith", len(f32_known))
+        ck.violation(f"advanced_elementwise_add_sub_scale takes max/min/< of the raw scalars: a Python float and an np.float32 that differ but "
+                     f"agree after rounding to float32 are treated as equal, the operand factor becomes exactly 2^(shift-1) although "
+                     f"min/max != 1 (error up to 2^-24 > 2^-31), e.g. {rp['call']} = {rp['implementation']} (verdict {v}); "
+                     f"{len(mix_known)} of {len(spec_idx)} realistic triples", rp, found_input=True, key=KEY_ADV_MIXCMP)
+    ck.count("C_known_mixed_compare", len(mix_known))
     if el_mm and not el_bad:
         i = min(el_mm, key=lambda j: len(reqs[j]))
         ck.violation(f"correspondence Model/Scaling.lean vs scaling elementwise helpers broken on {len(el_mm)} inputs: {reqs[i]} -> "
@@ -721,25 +721,11 @@ def main():
         case_of.setdefault((pr[0], str(pr[1]), str(pr[2])), c)
     d1_bad = [b for r in dres for b in r["bad"]]
     d1_known16 = [b for r in dres for b in r["known"]]
-    # a rejected register pair: is it explained by the float32 rounding of an otherwise correct pair?
-    recheck, recheck_meta = [], []
+    d1_unknown = []
     for (n, bits, o, S, sh) in d1_bad:
         c = case_of.get((n, S, sh))
-        parts = o.split()
-        if c is None or parts[0] != "bad" or len(parts) != 5:
-            continue
         Sx, shx = scaling.quantise_pooling_scale(n)
-        recheck.append(f"poolpts {n} {Sx} {shx} {parts[1]}")
-        recheck_meta.append((n, bits, o, S, sh, c, Sx, shx))
-    rout = ck.model(recheck)
-    f32_pool_known, d1_unknown = [], []
-    for meta_, o2 in zip(recheck_meta, rout):
-        n, bits, o, S, sh, c, Sx, shx = meta_
-        if c[3] == "s" and o2.startswith("ok") and int(S) != Sx:
-            f32_pool_known.append(meta_)
-        else:
-            d1_unknown.append(meta_)
-    d1_unknown += [(n, bits, o, S, sh, None, None, None) for (n, bits, o, S, sh) in d1_bad if case_of.get((n, S, sh)) is None or not o.startswith("bad ") or len(o.split()) != 5]
+        d1_unknown.append((n, bits, o, S, sh, c, Sx, shx))
 
     def pool_replay(meta_):
         n, bits, o, S, sh, c, Sx, shx = meta_
@@ -757,12 +743,6 @@ def main():
         rp = pool_replay(meta_)
         ck.violation(f"OFM_SCALE register ({meta_[3]}, {meta_[4]}) of an average pool with window size {meta_[0]}: Lean Spec rejects it: {meta_[2]}",
                      rp, found_input=True)
-    if f32_pool_known:
-        m0 = min(f32_pool_known, key=lambda t: t[0])
-        rp = pool_replay(m0)
-        ck.violation(f"generate_ofm_scaling_for_pooling multiplies the exact pooling scale by an np.float32 rescale (NumPy >= 2: float32 result): "
-                     f"OFM_SCALE is rounded to 24 bits and no longer divides exactly, e.g. window {m0[5][0]}x{m0[5][1]}: register {m0[3]} "
-                     f"instead of {m0[6]}, {m0[2]}; {len(f32_pool_known)} of {len(d1_cases)} cases", rp, found_input=True, key=KEY_POOLREG_F32)
     if d1_known16:
         n, bits, o, S, sh = d1_known16[0]
         ck.violation(f"pooling register pair, odd window >= 32993, extreme 16-bit accumulator: {o}", {"n": n, "scale": S, "shift": sh},
@@ -772,7 +752,6 @@ def main():
         ck.violation(f"correspondence Model/Scaling.lean (poolRegistersEqualScales) vs generate_ofm_scaling_for_pooling broken on {len(d1_mm)} cases: "
                      f"{reqs[i]} -> implementation {reals[i]}, model {outs[i]}", {"correspondence": "poolreg", "request": reqs[i],
                      "implementation": reals[i], "model": outs[i], "case": d1_cases[i]}, found_input=False)
-    ck.count("D1_known_float32_rounded_registers", len(f32_pool_known))
     ck.sample({"stage": "D1", "request": reqs[0], "implementation": reals[0], "model": outs[0], "case": d1_cases[0][:4]})
 
     # D2: elementwise ADD / SUB / MUL
@@ -836,15 +815,12 @@ def main():
     distinct += len({(c[0], c[1], c[2], tuple(c[3]), c[4], c[5]) for c in d2_cases})
     d2_mm = [i for i, (m_, r_) in enumerate(zip(outs, reals)) if m_ != r_]
     ck.count("D2_model_mismatch", len(d2_mm))
-    d2_known, d2_bad = [], []
+    d2_bad = []
     for ci, vd in zip(spec_idx, sp):
         ck.count("D2_spec_" + vd.replace(":", "_"))
         if vd == "1":
             continue
-        if d2_cases[ci][0] != "mul" and vd.endswith(":f32") and vd.split(":")[1] in ("ratio", "reference") and ci not in d2_mm:
-            d2_known.append((ci, vd))
-        else:
-            d2_bad.append((ci, vd))
+        d2_bad.append((ci, vd))
 
     def d2_replay(ci, vd):
         sub, dt, kind, v, act, rev = d2_cases[ci]
@@ -856,16 +832,11 @@ def main():
     for ci, vd in d2_bad[:3]:
         ck.violation(f"registers of elementwise {d2_cases[ci][0].upper()} ({d2_cases[ci][1]}, scales {[float(x).hex() for x in d2_cases[ci][3]]} as "
                      f"{d2_cases[ci][2]}): {reals[ci]}: Lean Spec verdict {vd}", d2_replay(ci, vd), found_input=True)
-    if d2_known:
-        ci, vd = d2_known[0]
-        ck.violation(f"OPA/OFM_SCALE registers of ADD/SUB with np.float32 scales carry float32 precision (verdict {vd}): {reals[ci]}; "
-                     f"{len(d2_known)} of {len(spec_idx)} register sets", d2_replay(ci, vd), found_input=True, key=KEY_ADDSUB_F32)
     if d2_mm and not d2_bad:
         i = d2_mm[0]
         ck.violation(f"correspondence Model/Scaling.lean (ewRegisters*) vs generate_scaling_for_elementwise broken on {len(d2_mm)} cases: {reqs[i]} -> "
                      f"implementation {reals[i]}, model {outs[i]}", {"correspondence": "ewreg", "request": reqs[i], "implementation": reals[i],
                      "model": outs[i], "case": d2_replay(i, "n/a")}, found_input=False)
-    ck.count("D2_known_f32_arith", len(d2_known))
     ck.count("D_wall_s", round(time.time() - t0, 1))
     ck.sample({"stage": "D2", "request": reqs[0], "implementation": reals[0], "model": outs[0]})
 
